@@ -315,6 +315,13 @@ theorem send_and_put_step_order :
     Gen.Site.sendData.filter (fun x => x ∈ ["write", "drain", "put"]) = ["write", "drain", "put"] ∧
     Gen.Site.corrPut = ["_remove_expired", "monotonic", "set:_store"] := by decide
 
+/-- TIE TO THE SOURCE (regenerated on every run, Gen/Site.lean), the await points of `_send_data`: the gate (`wait`), the
+    sending hook, `drain` and `correlator.put` are awaited and nothing else - so no other task runs between the sending hook
+    and `write`, and between `write` and the moment the request is recorded a response can be processed only while `drain`
+    or the sweep inside `put` is suspended (the window of the known finding response-overtakes-put, nothing wider). -/
+theorem send_data_await_points :
+    Gen.Site.sendDataAwaits = ["wait", "await", "sending", "await", "write", "drain", "await", "put", "await"] := by decide
+
 /-- TIE TO THE SOURCE (regenerated on every run, Gen/Site.lean): `_handle_response` in source order: decode, correlate (`correlator.get`), throttle statistics, remember the SMSC id (`put_delivery`), aggregate the segments (`get_segmented`), report an expired message - the order of Model/Corr.lean `handleResponse` -/
 theorem handle_response_step_order :
     Gen.Site.handleResponse = ["from_pdu", "get:correlator", "throttled", "not_throttled", "put_delivery", "get_segmented", "send_error"] := by
@@ -335,4 +342,5 @@ end SmppVerif.Props.C01
 #print axioms SmppVerif.Props.C01.segmented_message_exactly_once
 #print axioms SmppVerif.Props.C01.Example.weave
 #print axioms SmppVerif.Props.C01.send_and_put_step_order
+#print axioms SmppVerif.Props.C01.send_data_await_points
 #print axioms SmppVerif.Props.C01.handle_response_step_order
